@@ -29,7 +29,7 @@ for m in sorted(glob.glob('/verif/seeded/*/meta.json')):
         hit = [r for r in rs if r[2] == "1"]
         und = [r for r in rs if r[2] == "2"]
         if hit:
-            r = hit[0]; res = "**caught** by `./check %s` (%s)%s" % (r[0], r[1], "" if r[4] == "0" else ", no-failing-input-found"); ob = "`%s`" % r[3]; caught += 1
+            r = hit[0]; res = "**caught** by `./check %s` (%s)%s" % (r[0].replace("|", "\\|"), r[1], "" if r[4] == "0" else ", no-failing-input-found"); ob = "`%s`" % r[3]; caught += 1
         elif und and len(und) == len(rs):
             res = "undecided (exit 2: tool limit on the changed tree)"; ob = ""; undec += 1
         else:
